@@ -142,7 +142,7 @@ fn arb_char() -> BoxedStrategy<char> {
         2 => proptest::sample::select(vec!['"', '\\', ' ', '\t', '\r', '\n', ':', '\u{7f}']),
         3 => (0x80u32..0x100).prop_map(|c| char::from_u32(c).unwrap()),
         2 => (0x300u32..0x370).prop_map(|c| char::from_u32(c).unwrap()),
-        2 => proptest::sample::select(vec!['\u{ad}', '\u{200b}', '\u{200d}', '\u{3000}', '\u{1680}', '\u{feff}', '\u{fffd}', '\u{e000}', '\u{2028}', '\u{b7}', '\u{1f641}']),
+        2 => proptest::sample::select(vec!['\u{ad}', '\u{200b}', '\u{200d}', '\u{3000}', '\u{1680}', '\u{feff}', '\u{fffd}', '\u{e000}', '\u{2028}', '\u{b7}', '\u{1f641}', '\u{958}', '\u{95b}', '\u{344}', '\u{fb1d}', '\u{2adc}', '\u{212b}']),
         3 => (0x100u32..0xD800).prop_map(|c| char::from_u32(c).unwrap_or('x')),
         1 => (0xE000u32..0x10000).prop_map(|c| char::from_u32(c).unwrap_or('x')),
         2 => (0x10000u32..0x110000).prop_map(|c| char::from_u32(c).unwrap_or('x')),
